@@ -105,7 +105,7 @@ let parse_op (s : string) : op =
 let external_op (s : string) : bool option =
   match List.hd (split_on ':' s) with
   | "print" | "printbuf" | "printpre" | "minify" | "sortobj" | "sortobjcs" | "findptr" | "applypatch" | "applypatchcs" -> Some false
-  | "parse" | "genpatch" | "genpatchcs" | "genmerge" | "genmergecs" | "mergepatch" | "mergepatchcs" | "getptr" | "getptrcs" -> Some true
+  | "parse" | "parseo" | "parsel" | "genpatch" | "genpatchcs" | "genmerge" | "genmergecs" | "mergepatch" | "mergepatchcs" | "getptr" | "getptrcs" -> Some true
   | _ -> None
 
 (* ---- canonical output ---- *)
